@@ -42,6 +42,9 @@ class Coop(object):
         self.p = pair
         self.full = full
         self.peer_hold = r.choice([0, 3, 30, 90, 180, 65535])
+        # the peer that finally behaves may carry the BGP identifier seen before, or another one (the router was renumbered or
+        # replaced): a valid OPEN either way
+        self.peer_id = r.choice([0x0a000002, 0x0a000002, 0x0a000909, 0xc000024d])
         self.sent_open = set()
         self.sent_ka = {}
         self.next_ka = {}
@@ -49,7 +52,7 @@ class Coop(object):
 
     def peer_open(self):
         ras = self.full['remote_as']
-        return SG.frame(1, SG.open_body(ras, self.peer_hold, caps=SG.std_caps(ras)))
+        return SG.frame(1, SG.open_body(ras, self.peer_hold, bgp_id=self.peer_id, caps=SG.std_caps(ras)))
 
     def next_event(self):
         sim = self.p.sim
